@@ -172,6 +172,34 @@ func c14RegRuntime(w *World, op TxOp, v TxView, _ signature.Signer, fee *transac
 		}
 		cs[role] = c
 	}
+	if a%7 == 0 {
+		// Aim at the interplay of the two pool constraints: with MaxNodes = 1 the pool counts one
+		// node per entity; put MinPoolSize between that and the raw number of compute nodes, and
+		// keep the group small enough to be electable from the de-duplicated pool.
+		if nodes, err := registryState.NewImmutableState(v.Tree()).Nodes(context.Background()); err == nil {
+			raw := 0
+			ents := map[signature.PublicKey]bool{}
+			for _, n := range nodes {
+				if n.HasRoles(node.RoleComputeWorker) && n.GetRuntime(w.RuntimeID, version.Version{Major: 0, Minor: 1, Patch: 0}) != nil {
+					raw++
+					ents[n.EntityID] = true
+				}
+			}
+			if dedup := len(ents); raw > dedup && dedup >= 1 {
+				c := registry.SchedulingConstraints{
+					MaxNodes:    &registry.MaxNodesConstraint{Limit: 1},
+					MinPoolSize: &registry.MinPoolSizeConstraint{Limit: uint16(dedup + 1 + (a>>3)%(raw-dedup))},
+				}
+				rt.Executor.GroupSize = uint16(1 + (a>>5)%dedup)
+				rt.Executor.GroupBackupSize = uint16((a >> 7) % 2)
+				cs[scheduler.RoleWorker] = c
+				cs[scheduler.RoleBackupWorker] = registry.SchedulingConstraints{}
+				if (a>>8)%2 == 0 {
+					cs[scheduler.RoleBackupWorker] = c
+				}
+			}
+		}
+	}
 	rt.Constraints = map[scheduler.CommitteeKind]map[scheduler.Role]registry.SchedulingConstraints{scheduler.KindComputeExecutor: cs}
 	if (a>>14)%3 == 0 {
 		// Deploy version 0.2.0 from a later epoch on (once).
